@@ -58,8 +58,11 @@ pub uninterp spec fn spec_is_arith(line: Seq<char>) -> bool;
 pub fn is_arithmetic(line: &str) -> (r: bool) ensures r == spec_is_arith(line@) { unimplemented!() }
 #[verifier::external_body]
 pub proof fn new_mode() -> (tracked r: CalcMode) ensures !r.used_float && !r.used_int { unimplemented!() }
+pub struct VxIoErr { pub e: i32 }
 #[verifier::external_body]
-pub fn vx_println(s: &String) { }
+pub fn vx_println(s: &String) -> (r: Result<(), VxIoErr>) { unimplemented!() }
+#[verifier::external_body]
+pub fn vx_eprintln_io(e: &VxIoErr) { }
 #[verifier::external_body]
 pub fn vx_eprintln_calc(s: &str) { }
 //@FN try_run_calculator
@@ -116,7 +119,8 @@ run_calculator = Fn('src/core.rs', 'run_calculator', ret='r',
 
 try_run_calculator = Fn('src/core.rs', 'try_run_calculator', ret='r', props=('C19',),
     pre_rewrites=[Rw('tools::is_arithmetic(', 'is_arithmetic(', rule='R0'),
-                  Rw('println!("{}", result);', 'vx_println(&result);', rule='R3', why='printing the result'),
+                  Rw('writeln!(std::io::stdout(), "{}", result)', 'vx_println(&result)', rule='R3', why='printing the result: a write that can fail (closed or full stdout)'),
+                  Rw('println_stderr!("cicada: calculator: {}", err);', 'vx_eprintln_io(&err);', rule='R3', why='printing the diagnostic'),
                   Rw('println_stderr!("cicada: calculator: {}", e);', 'vx_eprintln_calc(e);', rule='R3', why='printing the diagnostic'),
                   Rw('e.to_string()', 'vx_s(e)', rule='R7', required=False)],
     ghost_args={'run_calculator': 'Tracked(&mut md)'},
